@@ -53,10 +53,14 @@ def main():
         src = open(mp).read()
         pat = "\t// decide where to start\n\tr := uintptr(rand())\n"
         if src.count(pat) == 1:
-            src = src.replace(pat, pat + "\tif verifMapIterFixed >= 0 {\n\t\tr = uintptr(verifMapIterFixed)\n\t}\n")
+            src = src.replace(pat, pat + "\tif verifMapIterFixed >= 0 {\n\t\tr = uintptr(verifMapIterFixed)\n\t\tif verifMapIterSwitch > 0 {\n\t\t\tverifMapIterSwitch--\n\t\t\tif verifMapIterSwitch == 0 {\n\t\t\t\tverifMapIterFixed = verifMapIterNext\n\t\t\t}\n\t\t}\n\t}\n")
             src += ("\n// verifMapIterFixed, when >= 0, pins the pseudo-random start position of every map iteration.\n"
+                    "// After verifMapIterSwitch further iterations it is replaced by verifMapIterNext (so that two\n"
+                    "// iterations inside one call of the code under test can be given different orders).\n"
                     "// Build-overlay seam of the go-mail verification harness; -1 keeps the normal behaviour.\n"
-                    "//\n//go:linkname verifMapIterFixed\nvar verifMapIterFixed int = -1\n")
+                    "//\n//go:linkname verifMapIterFixed\nvar verifMapIterFixed int = -1\n"
+                    "\n//go:linkname verifMapIterSwitch\nvar verifMapIterSwitch int\n"
+                    "\n//go:linkname verifMapIterNext\nvar verifMapIterNext int\n")
             dst = os.path.join(ov, "runtime_map.go.txt")
             open(dst, "w").write(src)
             replace[mp] = dst
@@ -65,9 +69,9 @@ def main():
     seamfile = os.path.join(ov, "seam_enabled.go.txt")
     harness = os.path.normpath(os.path.join(here, "..", "harness"))
     if seam:
-        open(seamfile, "w").write('package mapseam\n\nimport _ "unsafe"\n\n//go:linkname fixed runtime.verifMapIterFixed\nvar fixed int\n\n// Enabled reports whether the runtime seam is compiled in.\nconst Enabled = true\n\nfunc set(k int) { fixed = k }\n')
+        open(seamfile, "w").write('package mapseam\n\nimport _ "unsafe"\n\n//go:linkname fixed runtime.verifMapIterFixed\nvar fixed int\n\n//go:linkname switchAfter runtime.verifMapIterSwitch\nvar switchAfter int\n\n//go:linkname next runtime.verifMapIterNext\nvar next int\n\n// Enabled reports whether the runtime seam is compiled in.\nconst Enabled = true\n\nfunc set(k int) { fixed, switchAfter = k, 0 }\n\nfunc setSwitch(k1, n, k2 int) { fixed, switchAfter, next = k1, n, k2 }\n')
     else:
-        open(seamfile, "w").write('package mapseam\n\n// Enabled reports whether the runtime seam is compiled in.\nconst Enabled = false\n\nfunc set(k int) {}\n')
+        open(seamfile, "w").write('package mapseam\n\n// Enabled reports whether the runtime seam is compiled in.\nconst Enabled = false\n\nfunc set(k int) {}\n\nfunc setSwitch(k1, n, k2 int) {}\n')
     replace[os.path.join(harness, "mapseam", "seam_gen.go")] = seamfile
     for e in extras:
         replace.update(json.load(open(e)).get("Replace", {}))
